@@ -465,7 +465,13 @@ impl Engine {
                     }
                 }
                 let buf = &mut self.cmd[cb];
-                if b.kind == 0 || b.kind >= 10 {
+                if opc == 81 && b.kind == 0 && b.items.len() == 1 && b.items[0].1 % 2 == 0 {
+                    // a lone component goes through insert_one (a separate entry point of the buffer)
+                    let (t, v) = b.items[0];
+                    with_comp!(t, C, {
+                        buf.insert_one(h.unwrap(), C::new(v));
+                    });
+                } else if b.kind == 0 || b.kind >= 10 {
                     let types: Vec<u64> = b.items.iter().map(|x| x.0).collect();
                     let vals: Vec<u64> = b.items.iter().map(|x| x.1).collect();
                     match h {
@@ -497,7 +503,14 @@ impl Engine {
                         self.cmd_invalid[cb] = true;
                     }
                 }
-                dispatch_tuple(&ts, CmdRemoveV(&mut self.cmd[cb], h)).expect("tuple type not in catalogue");
+                if ts.len() == 1 && ts[0] % 2 == 0 {
+                    let buf = &mut self.cmd[cb];
+                    with_comp!(ts[0], C, {
+                        buf.remove_one::<C>(h);
+                    });
+                } else {
+                    dispatch_tuple(&ts, CmdRemoveV(&mut self.cmd[cb], h)).expect("tuple type not in catalogue");
+                }
                 self.cmd_counts[cb] += 1;
                 self.emit_c(&mut obs, 0, &[], out);
             }
